@@ -5,7 +5,8 @@ import json, os, subprocess, sys, glob
 HERE = os.path.dirname(os.path.dirname(os.path.abspath(__file__)))
 man = json.load(open(os.path.join(HERE, 'MANIFEST.json')))
 props = [c['property_id'] for c in man['checks']]
-only = sys.argv[1:]
+only = [a for a in sys.argv[1:] if not a.startswith('--')]
+TARGET_ONLY = '--target-only' in sys.argv      # fast regression: run only the check of the seed's own property
 res_path = os.path.join(HERE, 'seeded', 'RESULTS.json')
 try:
     results = json.load(open(res_path))
@@ -41,7 +42,13 @@ for d in sorted(glob.glob(os.path.join(HERE, 'seeded', '*', 'patch.diff'))):
         print(sid, 'PATCH DOES NOT APPLY')
         continue
     try:
-        got = run_checks()
+        if TARGET_ONLY:
+            got = dict(base)
+            tp = meta.get('property')
+            if tp in props:
+                got[tp] = one(tp)[1]
+        else:
+            got = run_checks()
     finally:
         subprocess.run(['git', '-C', '/repo', 'checkout', '--', '.'])
     caught = {}
@@ -72,4 +79,5 @@ for d in sorted(glob.glob(os.path.join(HERE, 'seeded', '*', 'patch.diff'))):
     for p, c in caught.items():
         for l in c['new'][:2]:
             print('     ', p, l[:260])
-json.dump(results, open(res_path, 'w'), indent=1, sort_keys=True)
+if not TARGET_ONLY:
+    json.dump(results, open(res_path, 'w'), indent=1, sort_keys=True)
